@@ -40,6 +40,10 @@ type parseReport struct {
 	Recs      []callRec `json:"-"`
 }
 
+// measureAlloc switches the per-call allocation measurement (two stop-the-world
+// ReadMemStats per Parse call) off where throughput matters (native fuzzing).
+var measureAlloc = true
+
 func parseAll(binary bool, input []byte) (rep parseReport) {
 	sr := &segReader{data: input}
 	br := bufio.NewReaderSize(sr, 4096)
@@ -52,9 +56,13 @@ func parseAll(binary bool, input []byte) (rep parseReport) {
 	}()
 	used := 0
 	for {
-		runtime.ReadMemStats(&m0)
+		if measureAlloc {
+			runtime.ReadMemStats(&m0)
+		}
 		_, _, _, err := p.Parse()
-		runtime.ReadMemStats(&m1)
+		if measureAlloc {
+			runtime.ReadMemStats(&m1)
+		}
 		rep.Calls++
 		now := sr.consumed - br.Buffered()
 		rec := callRec{Off: used, Used: now - used, Alloc: m1.TotalAlloc - m0.TotalAlloc}
